@@ -30,6 +30,19 @@ Candidates(name, wname, dots, enddot) ==
   ELSE LET doms == [i \in 1..Len(scfg.domains) |-> CatDomain(name, scfg.domains[i])]
        IN IF dots >= scfg.ndots THEN <<AsIs(name, wname, dots)>> \o doms ELSE doms \o <<AsIs(name, wname, dots)>>
 
+(* a reference transcription of resolv.conf(5), written independently of Candidates; TLC cross-checks the two
+   in SearchModel.tla *)
+RefFirstAsIs(dots) == dots >= scfg.ndots
+RefOk(name, wname, dots, enddot) ==
+  LET c == Candidates(name, wname, dots, enddot) IN
+  /\ ((enddot = 1 \/ scfg.nosearch = 1) => (Len(c) = 1 /\ c[1].txt = name /\ c[1].wire = wname))
+  /\ ((enddot = 0 /\ scfg.nosearch = 0) =>
+       /\ Len(c) = Len(scfg.domains) + 1
+       /\ (RefFirstAsIs(dots) => c[1].txt = name)
+       /\ (~RefFirstAsIs(dots) => c[Len(c)].txt = name)
+       /\ \A i \in 1..Len(scfg.domains) :
+             c[i + (IF RefFirstAsIs(dots) THEN 1 ELSE 0)].txt = (IF scfg.domains[i] = "." THEN name \o "." ELSE name \o "." \o scfg.domains[i]))
+
 (* outcome classes of one candidate *)
 NoData == {"nodata", "nx"}
 SoftForSingle == {"servfail", "refused"}
